@@ -70,14 +70,16 @@ def run_decode(prog, nbytes, use_cache=True):
     for o in outs:
         rv = o.retval
         base = tuple(o.pc.log)
+        events.extend(e for e in o.events if not any(e is x for x in events))
+        if o.status != "returned" and o.status != "run":
+            # a path that stopped inside the decoder (panicked / diverged): its `retval` is a leftover of an inner call, not a result
+            alts.append((base, Opaque.make("abnormal", status=o.status)))
+            continue
         if isinstance(rv, Choice):
             for d, v in rv.alts:
                 alts.append((base + tuple(d), v))
         else:
             alts.append((base, rv))
-        events.extend(e for e in o.events if not any(e is x for x in events))
-        if o.status != "returned" and o.status != "run":
-            alts.append((base, Opaque.make("abnormal", status=o.status)))
     alts = [_hoist_alt(a) for a in alts]
     r = DecodeRun(nbytes, alts, [_strip_event(e) for e in events], ip.obligations, ip.unsummarised, ip.steps, time.time() - t0,
                   sorted(ip.visited_fns))
